@@ -24,18 +24,19 @@ NS_SPLITS_QUICK = [ns_split(8), ns_split(12)]
 NS_SPLITS_MORE = [ns_split(n) for n in (9, 16)]
 NS_SPLITS_THOROUGH = [ns_split(n) for n in (10, 11, 13, 14, 15, 20, 24)]
 
-def fl_jobs(kind, kname, op, config, tier, splits, nb=3, nb2=0, timeout=300, extra_def=(), two_obj=None):
+def fl_jobs(kind, kname, op, config, tier, splits, nb=3, nb2=0, timeout=300, extra_def=(), two_obj=None, lays=None):
+  if lays is None: lays = ((0, 0),) if kind == 1 else (((0, 0), (1, 0)) if nb2 == 0 else ((0, 0), (1, 1), (2, 0), (3, 1)))
+  for lay, gapv in lays:
     for sname, ns, sdef in splits:
         two = op in (7, 8, 9) if two_obj is None else two_obj
         lsize = 24 if kind == 1 else 48
         r16 = lambda x: (x + 15) // 16 * 16
-        heap = lsize * 2 + r16(nb * ns) + (r16((nb2 + 1) * ns) + 16 if (nb2 or op == 5) else r16(ns)) 
-        heap = r16(heap)
-        add('fl-%s-%s-%s-%s-nb%d_%d' % (kname, FL_OPS[op], config, sname, nb, nb2), FL_PROPS[op], 'freelist', 'fl_step.c', config=config,
-            defines=['LISTKIND=%d' % kind, 'OP=%d' % op, 'NB=%d' % nb, 'NB2=%d' % nb2, 'HEAP_SIZE=%d' % heap] + sdef + list(extra_def),
+        heap = r16(lsize * 2 + r16(nb * ns) + r16((nb2 + 1) * ns) + 16)
+        add('fl-%s-%s-%s-%s-nb%d_%d-lay%d%d' % (kname, FL_OPS[op], config, sname, nb, nb2, lay, gapv), FL_PROPS[op], 'freelist', 'fl_step.c', config=config,
+            defines=['LISTKIND=%d' % kind, 'OP=%d' % op, 'NB=%d' % nb, 'NB2=%d' % nb2, 'HEAP_SIZE=%d' % heap, 'LAY=%d' % lay, 'GAP=%d' % gapv] + sdef + list(extra_def),
             unwind=max(nb + nb2 + 3, (nb + nb2) * ns // 8 + 3), timeout=timeout, tier=tier,
             desc='%s::%s one inductive step from an arbitrary valid state' % (kname, FL_OPS[op]),
-            bounds='<=%d+%d node slots in 1-2 blocks, 4 layouts (objects below/between/above the blocks, blocks adjacent or apart), node size %d, heap %d bytes' % (nb, nb2, ns, heap))
+            bounds='<=%d+%d node slots in 1-2 blocks, layout %d gap %d (objects below/between/above the blocks, blocks adjacent or apart), node size %d, heap %d bytes' % (nb, nb2, lay, gapv, ns, heap))
 
 for kind, kname in ((1, 'free_memory_list'), (2, 'ordered_free_memory_list')):
     for op in (1, 2, 3, 4, 6, 7, 8, 9):
@@ -54,3 +55,31 @@ fl_jobs(2, 'ordered_free_memory_list', 11, 'check', 'quick', NS_SPLITS_QUICK, ex
 fl_jobs(2, 'ordered_free_memory_list', 11, 'debug8', 'thorough', NS_SPLITS_QUICK + NS_SPLITS_MORE, extra_def=['HANDLER_STOPS'], timeout=900)
 for op in (1, 2, 3, 4):
     fl_jobs(2, 'ordered_free_memory_list', op, 'check', 'quick', NS_SPLITS_QUICK[:1])
+
+# ---------------------------------------------------------------- small_free_memory_list
+SFL_OPS = {1: 'allocate', 2: 'deallocate', 5: 'insert', 6: 'ctor', 7: 'move_ctor', 8: 'move_assign', 9: 'swap',
+           11: 'bad_outside', 12: 'bad_stride', 13: 'bad_double'}
+SFL_PROPS = {1: ['C01', 'C02', 'C16', 'C17'], 2: ['C01', 'C04', 'C16', 'C17'], 5: ['C01', 'C02'], 6: ['C01'], 7: ['C12'], 8: ['C12'], 9: ['C12'],
+             11: ['C16'], 12: ['C16'], 13: ['C16']}
+def sfl_jobs(op, config, tier, nss, timeout=400, lays=((0, 0), (1, 1), (2, 0))):
+    for ns in nss:
+        for lay, gap in lays:
+            add('sfl-%s-%s-ns%d-lay%d%d' % (SFL_OPS[op], config, ns, lay, gap), SFL_PROPS[op], 'freelist', 'sfl_step.c', config=config,
+                defines=['OP=%d' % op, 'NS_MIN=%d' % ns, 'NS_MAX=%d' % ns, 'LAY=%d' % lay, 'GAP=%d' % gap,
+                         'HEAP_SIZE=%d' % (2 * 56 + 2 * ((32 + 3 * ns + 7) // 8 * 8) + 16 + 8)], unwind=8, timeout=timeout, tier=tier,
+                desc='small_free_memory_list::%s one inductive step from an arbitrary valid state' % SFL_OPS[op],
+                bounds='<=2 chunks of <=3 nodes, arbitrary free chains, cache pointers anywhere on the ring, node size %d, layout %d (objects below/between/above the chunks), chunk gap %d' % (ns, lay, gap))
+for op in (1, 2, 6, 7, 8, 9):
+    sfl_jobs(op, 'release', 'quick', (3,), lays=((1, 0),))
+    sfl_jobs(op, 'release', 'thorough', (1, 2, 4, 8))
+    sfl_jobs(op, 'baseline', 'thorough', (1, 2, 3, 4), timeout=1200)
+for op in (1, 2):
+    sfl_jobs(op, 'baseline', 'quick', (3,), lays=((0, 0), (2, 0)))
+    sfl_jobs(op, 'baseline', 'quick', (1,), lays=((1, 1),))
+sfl_jobs(5, 'release', 'quick', (3,), timeout=600, lays=((1, 0),))
+sfl_jobs(5, 'release', 'thorough', (1, 2, 4), timeout=1800)
+for op in (11, 12):
+    sfl_jobs(op, 'baseline', 'quick', (3,))
+    sfl_jobs(op, 'baseline', 'thorough', (1, 2, 4), timeout=1200)
+sfl_jobs(13, 'check', 'quick', (3,), lays=((1, 0),))
+sfl_jobs(13, 'debug8', 'thorough', (1, 2, 3, 4), timeout=1200)
